@@ -12,7 +12,14 @@ FILES = ('sqlparse/sql.py', 'sqlparse/engine/grouping.py', 'sqlparse/engine/stat
 def regex_separators(rep):
     """in every rule that spells several words the separator between the words is \\s+ (any non-empty whitespace)"""
     from sqlparse import keywords
-    for i, (rx, a) in enumerate(keywords.SQL_REGEX):
+    table = list(keywords.SQL_REGEX)
+    known = {rx for rx, _ in table}
+    # rules that only exist in the table of the default lexer instance (added by the configuration code) count as well
+    extra = [(rx, a) for rx, a in common.default_lexer_rules() if rx not in known]
+    common.structural(rep, 'C11/Lexer.default_initialization/every rule of the default instance is a compiled pattern '
+                      '(so its separators can be read)', 'sqlparse.lexer.Lexer.default_initialization',
+                      all(rx is not None for rx, _ in extra), {'extra_rules': len(extra)}, undecided_if_false=True)
+    for i, (rx, a) in enumerate(table + [(rx, a) for rx, a in extra if rx is not None]):
         seps = regexfacts.word_separators(rx)
         if not seps or not regexfacts.has_letters(rx):
             continue
@@ -20,7 +27,8 @@ def regex_separators(rep):
         # GO(\s\d+) is not a multi-word keyword (GO + repeat count); the TZCast rule is checked like the others
         if rx.startswith('GO('):
             continue
-        common.structural(rep, 'C11/keywords.SQL_REGEX[%d]/words of a multi-word rule are separated by \\s+' % i,
+        where = 'keywords.SQL_REGEX[%d]' % i if i < len(table) else 'default lexer rule %r' % rx
+        common.structural(rep, 'C11/%s/words of a multi-word rule are separated by \\s+' % where,
                           'sqlparse.keywords.SQL_REGEX', not bad, {'rule': rx, 'separators': seps})
 
 
